@@ -53,6 +53,10 @@ def gen_ir(r, fmt):
             # container types without a default (dict / Optional[dict] / nested generics)
             p["typ"] = r.choice(["dict", "Optional[dict]", "Optional[List[int]]", "Dict[str, int]", "Tuple[int, str]"])
             p.pop("default", None)
+        elif k < 0.64 and fmt not in ("json_schema",) and not fmt.startswith("sqlalchemy"):
+            # code-quoted (non-literal) defaults under container / dotted types: they take the generic, not the scalar, emitter branch
+            p["typ"] = r.choice(["List[int]", "Dict[int, float]", "Optional[List[int]]", "np.ndarray", "Callable[[int], int]"])
+            p["default"] = r.choice(["```make_callbacks()```", "```np.zeros(3)```", "```[1, 2]```", "```lambda x: x```"])
     if r.random() < 0.3:
         ir["doc"] = r.choice(["Summary line.\n\nLonger description\nover two lines.", "  Indented summary", "Summary"])
     # descriptions that span several lines (a line break inside a parameter's or the return's description is legal input)
@@ -65,6 +69,20 @@ def gen_ir(r, fmt):
             n = r.choice(list(ir["params"]))
             ir["params"][n]["doc"] = ml
     return ir
+
+
+def _code_default(d):
+    return isinstance(d, str) and len(d) > 6 and d.startswith("```") and d.endswith("```") and d != "```(None)```"
+
+
+def _literal_code(d):
+    import ast
+
+    try:
+        ast.literal_eval(d[3:-3])
+        return True
+    except Exception:  # noqa
+        return False
 
 
 def diff_kind(a, b):
@@ -108,6 +126,8 @@ def compare(chk, case, views):
             base["announce_variant_doc"] = True  # root-cause marker: a description announces a default with a phrase other than "defaults to"
         if any("\n" in (p.get("doc") or "") for p in list(ir["params"].values()) + list((ir.get("returns") or {}).values())):
             base["multiline_doc"] = True  # root-cause marker: some description of the input spans several lines
+        if any(_code_default(p.get("default")) for p in ir["params"].values()):
+            base["code_default"] = True  # root-cause marker: some parameter's default is a code-quoted (non-literal or literal-in-backticks) expression
         if "raises" in b:
             chk.failure({**base, "field": "raises", "exc": b["raises"], "trigger_doc": any(p.get("doc") in TRIGGER_DOCS for p in ir["params"].values())}, "%s: round %d parses, round %d raises %s" % (fmt, k + 1, k + 2, b["raises"]), rp)
             return True
@@ -147,6 +167,12 @@ def compare(chk, case, views):
                         ta, tb = pa[f] or "", pb[f] or ""
                         if ta == "Optional[%s]" % tb or tb == "Optional[%s]" % ta:
                             sig["optional_toggle"] = True
+                    d_in = ir["params"].get(name, {}).get("default") if ent == "param" else None
+                    if _code_default(d_in):
+                        if f == "doc" and "." in d_in:
+                            sig["code_default_dot"] = True  # root cause: extract_default stops at a '.' that is not followed by a digit, also inside the backticks
+                        if f == "typ" and _literal_code(d_in):
+                            sig["code_literal_default"] = True  # root cause: a code-quoted *literal* (```[1, 2]```) is evaluated by the argparse emitter and re-typed from its value
                     if ent == "param" and ir["params"].get(name, {}).get("typ") in ("dict", "Optional[dict]", "Optional[List[int]]", "Dict[str, int]", "Tuple[int, str]"):
                         sig["input_typ"] = ir["params"][name]["typ"]  # root-cause marker: container types take special paths (type=loads, required, None default)
                     chk.failure(sig, "%s/%s round %d -> %d: %s.%s %r -> %r" % (fmt, style, k + 1, k + 2, name, f, pa[f], pb[f]), rp)
